@@ -22,9 +22,14 @@ def pool():
     padding"""
     P = []
 
-    def add(t, fields, sig='', body=(), little=True, flags=0, serial=None):
+    def add(t, fields, sig='', body=(), little=True, flags=0, serial=None,
+            order=None, extra=()):
+        # order / extra: the header as another implementation may legally
+        # write it - fields in any order, field codes this library does not
+        # know (to be ignored) at any position
         P.append(dict(type=t, fields=fields, sig=sig, body=list(body),
-                      little=little, flags=flags, serial=serial))
+                      little=little, flags=flags, serial=serial,
+                      order=order, extra=tuple(extra)))
     add(1, {'path': '/a', 'member': 'M'})
     add(1, {'path': '/a/b', 'member': 'Mm', 'interface': 'a.b',
             'destination': 'c.d'}, 's', ['line\r\nbreak'], little=False)
@@ -35,12 +40,17 @@ def pool():
         [[13, 10, 108, 66] * 3], flags=1)
     add(4, {'path': '/s', 'member': 'Sigg', 'interface': 'a.b'},
         'a{sv}', [[['k', Var('s', '\r\n')]]], little=False)
-    add(1, {'path': '/a', 'member': 'Mmmmm'}, 'yx', [1, 2], flags=3)
-    add(2, {'reply_serial': 1, 'destination': ':1.5'}, little=False)
+    add(1, {'path': '/a', 'member': 'Mmmmm'}, 'yx', [1, 2], flags=3,
+        extra=[(0, 10, Var('s', 'new\r\n'))])
+    add(2, {'reply_serial': 1, 'destination': ':1.5'}, little=False,
+        order=['destination', 'reply_serial'],
+        extra=[(1, 127, Var('t', 0x0d0a))])
     add(1, {'path': '/a', 'member': 'Mmmmmm', 'sender': ':1.9'}, 'as',
         [['x' * 13, '\r', '\n']])
     add(4, {'path': '/', 'member': 'S', 'interface': 'a.b'}, 'v',
-        [Var('(ys)', [108, 'B'])], little=False)
+        [Var('(ys)', [108, 'B'])], little=False,
+        order=['signature', 'interface', 'member', 'path'],
+        extra=[(4, 255, Var('ay', [108, 13]))])
     return P
 
 
@@ -48,7 +58,9 @@ def encode(desc, serial):
     s = desc['serial'] or serial
     return R.encode_message(desc['type'], s, desc['fields'], desc['sig'],
                             desc['body'], little=desc['little'],
-                            flags=desc['flags']), s
+                            flags=desc['flags'],
+                            field_order=desc.get('order'),
+                            extra_fields=desc.get('extra', ())), s
 
 
 def make_server():
@@ -512,7 +524,9 @@ def run(ctx):
     ctx.rule = (
         'streams: every sequence of 1..2 messages (and %s of 3) from a pool '
         'of %d messages (4 types, both byte orders, bodies/serials/lengths '
-        'containing CR LF, l, B; every header padding). schedules per stream:'
+        'containing CR LF, l, B; every header padding; three with unknown '
+        'header-field codes 10 / 127 / 255 and unusual field orders). '
+        'schedules per stream:'
         ' one read, every single cut, byte-at-a-time, every pair of cuts %s'
         '%s. The same messages appended to the final handshake bytes for the '
         'server role (AUTH ANONYMOUS/BEGIN) and the client role (OK; OK + '
